@@ -28,6 +28,7 @@ static void phase(size_t lo, size_t hi) {
 int main() {
   add_module_ops(g_ops, {4, 16, 1024});
   add_table_ops(g_ops);
+  add_ctor_ops(g_ops);
   size_t nmod = g_ops.size();
   add_simple_ops(g_ops);
   // phase A: fresh process, module-level entry points and table kernels on shared objects
